@@ -295,6 +295,7 @@ func checkEdits(c *Ctx, deletes bool) {
 				// all read paths after the operation
 				c.compareReads(h.pj, "", info, "after-edit-")
 				c.bulkVsTraversal(h.pj, []byte(fmt.Sprintf("%s  AFTER %s", h.doc, strings.Join(h.ops, " ; "))), 6)
+				c.convJudgeAll(h.pj, []byte(fmt.Sprintf("%s  AFTER %s", h.doc, strings.Join(h.ops, " ; "))), 8)
 				if extraAfterEdit != nil {
 					extraAfterEdit(c, h, info)
 				}
